@@ -149,6 +149,25 @@ def handle : DrvHandler := fun op args =>
       let env := mkEnv tbl
       let ks := makeKeys p.toList v1 env.sfx (markKey drs k)
       some (ok (.arr (ks.map (fun s => Json.str (String.ofList s))).toArray))
+  | "C16.v2key", [cfg, tbl, k] => do
+      let p ← jStr? (← jField? cfg "prefix")
+      let tbl ← sfxTable? tbl
+      let k := (← jStr? k).toList
+      if !covered tbl k then some noSfx else
+      some (ok (.str (String.ofList (v2Key p.toList (mkEnv tbl).sfx k))))
+  | "C16.v1key", [cfg, tbl, k] => do
+      let p ← jStr? (← jField? cfg "prefix")
+      let tbl ← sfxTable? tbl
+      let k := (← jStr? k).toList
+      if !covered tbl k then some noSfx else
+      some (ok (.str (String.ofList (v1Key p.toList (mkEnv tbl).sfx k))))
+  | "C16.edged", [tbl, name, k, maxLen] => do
+      let tbl ← sfxTable? tbl
+      let name := (← jStr? name).toList
+      let k := (← jStr? k).toList
+      let m ← jInt? maxLen
+      if !covered tbl k then some noSfx else
+      some (ok (.str (String.ofList (edgedName (mkEnv tbl).sfx name k m))))
   | "C16.safe", [k] => do
       some (ok (.str (String.ofList (safeKey (← jStr? k).toList))))
   | "C16.isdrs", [body] => do
